@@ -755,18 +755,31 @@ def model_value(m, t):
     return None
 
 
+def _guarded_check(s, timeout_ms):
+    """s.check() -> 'sat' | 'unsat' | 'unknown' (z3 exceptions count as unknown).  NOTE: interrupting the context from a watchdog thread
+    was tried and corrupts z3's heap when it races with a normal return; queries that z3 cannot abandon (nonlinear arithmetic of
+    very high degree) have to be avoided by the harness (lower degree, concrete rates) - the pool's hard kill is the last resort."""
+    try:
+        return str(s.check())
+    except z3.Z3Exception:
+        return 'unknown'
+
+
 def check_sat(constraints, timeout_ms=20000, tactic=None):
     """returns (result_str, model_or_None, seconds)."""
     s = z3.Solver() if tactic is None else z3.Tactic(tactic).solver()
     s.set('timeout', int(timeout_ms))
     s.add(*constraints)
     t0 = time.time()
-    try:
-        r = str(s.check())
-    except z3.Z3Exception as e:  # pragma: no cover
-        return 'unknown', None, time.time() - t0
+    r = _guarded_check(s, timeout_ms)
     dt = time.time() - t0
-    return r, (s.model() if r == 'sat' else None), dt
+    m = None
+    if r == 'sat':
+        try:
+            m = s.model()
+        except z3.Z3Exception:
+            r = 'unknown'
+    return r, m, dt
 
 
 def prove(c: Ctx, prop, extra=(), timeout_ms=20000):
@@ -796,7 +809,7 @@ def prove(c: Ctx, prop, extra=(), timeout_ms=20000):
         try:
             s.add(*extra)
             s.add(*neg)
-            r = str(s.check())
+            r = _guarded_check(s, min(timeout_ms, INCREMENTAL_MS))
             m = s.model() if r == 'sat' else None
         except z3.Z3Exception:
             r, m = 'unknown', None
